@@ -35,6 +35,7 @@ type Finding struct {
 type Replay struct {
 	Unit    string          `json:"unit"`
 	Choices []int           `json:"choices,omitempty"`
+	FPs     []uint32        `json:"state_fingerprints,omitempty"` // one per choice: the replay must pass through the same states
 	Input   json.RawMessage `json:"input,omitempty"`
 	Trace   []string        `json:"trace,omitempty"`
 }
@@ -66,6 +67,7 @@ type UnitStat struct {
 	Distinct    int    `json:"distinct_outcomes"`
 	Complete    bool   `json:"complete"`
 	MaxDepth    int    `json:"max_depth"`
+	Audits      int64  `json:"determinism_audits,omitempty"` // executions re-run from their own choices and compared (states and observation)
 }
 
 func NewResult(prop, tier string) *Result {
@@ -143,6 +145,7 @@ func (r *Result) Merge(o *Result) {
 		m.Evaluations += u.Evaluations
 		m.States += u.States
 		m.Transitions += u.Transitions
+		m.Audits += u.Audits
 		if u.Distinct > m.Distinct {
 			m.Distinct = u.Distinct
 		}
@@ -249,10 +252,24 @@ func (c *Ctx) Expired() bool { return !c.Deadline.IsZero() && time.Now().After(c
 
 // RunOnce executes the scenario under a fixed choice sequence.
 func RunOnce(sc *Scenario, choices []int, trace bool) *vrt.Exec {
+	return RunOnceFP(sc, choices, nil, trace)
+}
+
+// RunOnceFP is RunOnce with the state fingerprints the points of the prefix must reproduce: the
+// prefix was taken from an earlier execution, and an execution that does not pass through the same
+// states while replaying it has diverged (a hard error, never a finding about the code).
+func RunOnceFP(sc *Scenario, choices []int, fps []uint32, trace bool) *vrt.Exec {
 	opt := sc.Opt
 	opt.Prefix = choices
+	opt.ExpectFP = fps
 	opt.Trace = trace
 	return vrt.Run(opt, sc.Body)
+}
+
+// branch is a prefix to explore together with the fingerprints of the states along it.
+type branch struct {
+	choices []int
+	fps     []uint32
 }
 
 // StandardFindings turns the generic failure modes of an execution into findings.
@@ -294,8 +311,9 @@ func ExploreS(ctx *Ctx, sc *Scenario, cfg SConfig) {
 	stop := false
 	var execs int64
 
-	runOne := func(prefix []int, mine bool) *vrt.Exec {
-		x := RunOnce(sc, prefix, false)
+	runOne := func(b branch, mine bool) *vrt.Exec {
+		prefix := b.choices
+		x := RunOnceFP(sc, prefix, b.fps, false)
 		if !mine {
 			return x
 		}
@@ -320,6 +338,17 @@ func ExploreS(ctx *Ctx, sc *Scenario, cfg SConfig) {
 			obs, nontrivial, more = sc.Check(x)
 			fs = append(fs, more...)
 		}
+		if execs%512 == 1 && x.Diverged == "" {
+			// determinism audit: the same choices must pass through the same states and give the
+			// same observation
+			xr := RunOnceFP(sc, x.Choices(), x.Fingerprints(), false)
+			us.Audits++
+			if xr.Diverged != "" {
+				fs = append(fs, &Finding{Sig: "BROKEN:nondeterministic", Msg: "re-running an execution from its own choices: " + xr.Diverged})
+			} else if obs2, _, _ := sc.Check(xr); obs2 != obs {
+				fs = append(fs, &Finding{Sig: "BROKEN:nondeterministic", Msg: "re-running an execution from its own choices gave another observation: " + trunc(obs, 200) + " / " + trunc(obs2, 200)})
+			}
+		}
 		h := Hash(sc.Name, obs)
 		res.Outcomes[h]++
 		distinct[h] = true
@@ -328,7 +357,7 @@ func ExploreS(ctx *Ctx, sc *Scenario, cfg SConfig) {
 		}
 		if len(fs) > 0 {
 			// re-run with tracing: signatures carry code sites (function names)
-			xt := RunOnce(sc, x.Choices(), true)
+			xt := RunOnceFP(sc, x.Choices(), x.Fingerprints(), true)
 			fs = StandardFindings(sc, xt)
 			if xt.Diverged == "" {
 				_, _, more := sc.Check(xt)
@@ -340,7 +369,7 @@ func ExploreS(ctx *Ctx, sc *Scenario, cfg SConfig) {
 			}
 			for _, f := range fs {
 				f.Unit = sc.Name
-				f.Replay = Replay{Unit: sc.Name, Choices: x.Choices(), Trace: tr}
+				f.Replay = Replay{Unit: sc.Name, Choices: x.Choices(), FPs: x.Fingerprints(), Trace: tr}
 				res.AddFinding(f)
 			}
 		} else if len(res.Samples) < 3 && (nontrivial || execs == 1) {
@@ -350,8 +379,8 @@ func ExploreS(ctx *Ctx, sc *Scenario, cfg SConfig) {
 	}
 
 	// children enumerates the alternative prefixes branching off execution x beyond len(prefix).
-	children := func(x *vrt.Exec, prefix []int) [][]int {
-		var out [][]int
+	children := func(x *vrt.Exec, prefix []int) []branch {
+		var out []branch
 		pre := 0
 		for i := 0; i < len(x.Points); i++ {
 			p := x.Points[i]
@@ -365,11 +394,14 @@ func ExploreS(ctx *Ctx, sc *Scenario, cfg SConfig) {
 						continue
 					}
 					np := make([]int, i+1)
+					fp := make([]uint32, i+1)
 					for j := 0; j < i; j++ {
 						np[j] = x.Points[j].Chosen
+						fp[j] = x.Points[j].FP
 					}
 					np[i] = alt
-					out = append(out, np)
+					fp[i] = p.FP // the same state, another choice
+					out = append(out, branch{np, fp})
 				}
 			}
 			if p.Thread && (p.Running || !cfg.FreeSwitch) && p.Chosen != 0 {
@@ -379,8 +411,9 @@ func ExploreS(ctx *Ctx, sc *Scenario, cfg SConfig) {
 		return out
 	}
 
-	var dfs func(prefix []int)
-	dfs = func(prefix []int) {
+	var dfs func(b branch)
+	dfs = func(b branch) {
+		prefix := b.choices
 		if stop {
 			return
 		}
@@ -400,7 +433,7 @@ func ExploreS(ctx *Ctx, sc *Scenario, cfg SConfig) {
 			res.Cap("unit %s: execution cap %d hit in shard %d (bound %s)", sc.Name, cfg.MaxExecs, cfg.Shard, us.Bound)
 			return
 		}
-		x := runOne(prefix, true)
+		x := runOne(b, true)
 		if x.Diverged != "" {
 			return
 		}
@@ -422,12 +455,12 @@ func ExploreS(ctx *Ctx, sc *Scenario, cfg SConfig) {
 	}
 	n := cfg.NShards
 	if n <= 1 {
-		dfs(nil)
+		dfs(branch{})
 		us.Distinct = len(distinct)
 		return
 	}
 	// level 0
-	root := runOne(nil, cfg.Shard == 0)
+	root := runOne(branch{}, cfg.Shard == 0)
 	if root.Diverged != "" {
 		return
 	}
@@ -441,7 +474,7 @@ func ExploreS(ctx *Ctx, sc *Scenario, cfg SConfig) {
 		if x1.Diverged != "" {
 			continue
 		}
-		for _, c2 := range children(x1, c1) {
+		for _, c2 := range children(x1, c1.choices) {
 			if leafIndex%int64(n) == int64(cfg.Shard) {
 				dfs(c2)
 			}
@@ -519,7 +552,7 @@ func ReplayScenario(scs []*Scenario, rp Replay) []*Finding {
 		if sc.Name != rp.Unit {
 			continue
 		}
-		x := RunOnce(sc, rp.Choices, true)
+		x := RunOnceFP(sc, rp.Choices, rp.FPs, true)
 		fs := StandardFindings(sc, x)
 		if x.Diverged == "" {
 			_, _, more := sc.Check(x)
@@ -528,7 +561,7 @@ func ReplayScenario(scs []*Scenario, rp Replay) []*Finding {
 		tr := x.DumpSchedule()
 		for _, f := range fs {
 			f.Unit = sc.Name
-			f.Replay = Replay{Unit: sc.Name, Choices: rp.Choices, Trace: tr}
+			f.Replay = Replay{Unit: sc.Name, Choices: rp.Choices, FPs: rp.FPs, Trace: tr}
 		}
 		return fs
 	}
@@ -549,7 +582,7 @@ func (c *Ctx) RunCase(unit, eng string, sc *Scenario, input any, choices []int) 
 	in, _ := json.Marshal(input)
 	c.Record(unit, eng, string(in)+"|"+obs, nt, int64(len(x.Points)+1), int64(x.Steps))
 	if len(fs) > 0 {
-		xt := RunOnce(sc, x.Choices(), true)
+		xt := RunOnceFP(sc, x.Choices(), x.Fingerprints(), true)
 		fs = StandardFindings(sc, xt)
 		if xt.Diverged == "" {
 			_, _, more := sc.Check(xt)
@@ -557,7 +590,7 @@ func (c *Ctx) RunCase(unit, eng string, sc *Scenario, input any, choices []int) 
 		}
 		for _, f := range fs {
 			f.Unit = unit
-			f.Replay = Replay{Unit: unit, Input: in, Choices: x.Choices()}
+			f.Replay = Replay{Unit: unit, Input: in, Choices: x.Choices(), FPs: x.Fingerprints()}
 			c.Res.AddFinding(f)
 		}
 	} else if len(c.Res.Samples) < 3 {
